@@ -329,7 +329,10 @@ def judge_history(si, cfg, as_tuple, hist):
     want = (cfg[0], cfg[1], tuple(cfg[2]) if as_tuple else list(cfg[2]), tuple(cfg[3]) if as_tuple else list(cfg[3]))
     # the caller's settings are the caller's also WHILE a request is only partly read, and after it is abandoned
     for kind in set(hist):
-        g = getattr(f, kind)(io.BytesIO(blob), tcodes())
+        try:
+            g = getattr(f, kind)(io.BytesIO(blob), tcodes())
+        except Exception as ex:
+            return ('request-raised-under-filter-configuration:' + type(ex).__name__, {'request': kind, 'error': repr(ex)[:200], 'as_set': repr(want)})
         try:
             next(iter(g), None)
         except Exception:
